@@ -29,10 +29,16 @@ func traceSets() []traceSet {
 	}
 }
 
-func (d *driver) traces() {
-	for _, ts := range traceSets() {
-		d.prog++
-		d.fork = 0
+type coefCtx struct {
+	p     rlwe.Parameters
+	ks    *recKS
+	eval  *rlwe.Evaluator
+	fresh func(level int) (*rlwe.Ciphertext, []int64)
+	read  func(ct *rlwe.Ciphertext) ([]int64, bool)
+}
+
+func (d *driver) newCoefCtx(ts traceSet) *coefCtx {
+	{
 		p, err := rlwe.NewParametersFromLiteral(ts.lit)
 		tr.Must(err)
 		kg := rlwe.NewKeyGenerator(p)
@@ -93,6 +99,16 @@ func (d *driver) traces() {
 			}
 			return out, cons
 		}
+		return &coefCtx{p: p, ks: ks, eval: eval, fresh: fresh, read: read}
+	}
+}
+
+func (d *driver) traces() {
+	for _, ts := range traceSets() {
+		d.prog++
+		d.fork = 0
+		c := d.newCoefCtx(ts)
+		p, ks, eval, fresh, read := c.p, c.ks, c.eval, c.fresh, c.read
 		ci := p.RingType() == ring.ConjugateInvariant
 		for logN := 0; logN < p.LogN(); logN++ {
 			var adv []uint64
@@ -131,6 +147,81 @@ func (d *driver) traces() {
 					d.emit(ev{"ev": "trace", "scheme": ts.name, "op": fmt.Sprintf("lgn=%d", logN), "logn": p.LogN(), "lgn": logN, "ci": ci, "v": v, "out": res,
 						"inplace": inplace, "lvlin": lv[0], "lvlrecv": lv[1], "lvlout": o.Level(), "lvlmin": min, "nttok": o.IsNTT == ct.IsNTT || inplace,
 						"inok": inok, "adv": uniq(ks.GetGaloisKeysList()), "req": uniq(ks.req), "err": err != nil, "panic": pan, "cons": cons, "msg": msg})
+				}
+			}
+		}
+	}
+}
+
+// sums drives rlwe.Evaluator.PartialTracesSum and InnerFunction (with addition) in the coefficient domain:
+// the expected plaintext is the sum over i < n of the automorphism X -> X^(5^(i*offset)) of the input polynomial.
+func (d *driver) sums() {
+	for _, ts := range traceSets() {
+		d.prog++
+		d.fork = 0
+		c := d.newCoefCtx(ts)
+		p := c.p
+		ci := p.RingType() == ring.ConjugateInvariant
+		slots := p.N() / 2
+		if ci {
+			slots = p.N()
+		}
+		for _, off := range []int{1, 2, 3, 4} {
+			for n := 1; n*off <= slots && n <= 9; n++ {
+				for _, op := range []string{"PartialTracesSum", "InnerFunction"} {
+					if op == "PartialTracesSum" && p.PCount() == 0 {
+						continue // hoisted: needs an auxiliary modulus, like the scheme-level sums
+					}
+					for _, inplace := range []bool{false, true} {
+						if d.quick && inplace && (n+off)%2 == 0 {
+							continue
+						}
+						lvin, lvrecv := 1, 1
+						if !inplace && (n+off)%3 == 0 {
+							lvrecv = 0
+						}
+						ct, v := c.fresh(lvin)
+						snap, _ := ct.MarshalBinary()
+						o := ct
+						if !inplace {
+							o = rlwe.NewCiphertext(p, 1, lvrecv)
+							g, _ := c.fresh(lvrecv)
+							o.Copy(g)
+						}
+						c.ks.advertise(rlwe.GaloisElementsForInnerSum(p, off, n))
+						var err error
+						var pan bool
+						var msg string
+						if op == "PartialTracesSum" {
+							err, pan, msg = guarded(func() error { return c.eval.PartialTracesSum(ct, off, n, o) })
+						} else {
+							err, pan, msg = guarded(func() error {
+								return c.eval.InnerFunction(ct, off, n, func(a, b, r *rlwe.Ciphertext) error {
+									lv := r.Level()
+									if a.Level() < lv {
+										lv = a.Level()
+									}
+									if b.Level() < lv {
+										lv = b.Level()
+									}
+									r.Resize(r.Degree(), lv)
+									rq := p.RingQ().AtLevel(lv)
+									rq.Add(a.Value[0], b.Value[0], r.Value[0])
+									rq.Add(a.Value[1], b.Value[1], r.Value[1])
+									return nil
+								}, o)
+							})
+						}
+						res, cons := c.read(o)
+						inok := true
+						if !inplace {
+							after, _ := ct.MarshalBinary()
+							inok = string(after) == string(snap)
+						}
+						d.emit(ev{"ev": "csum", "scheme": ts.name, "op": op, "m": p.RingQ().NthRoot(), "ci": ci, "off": off, "n": n, "v": v, "out": res,
+							"inplace": inplace, "lvlin": lvin, "lvlrecv": lvrecv, "lvlout": o.Level(), "inok": inok,
+							"adv": uniq(c.ks.GetGaloisKeysList()), "req": uniq(c.ks.req), "err": err != nil, "panic": pan, "cons": cons, "msg": msg})
+					}
 				}
 			}
 		}
